@@ -114,6 +114,8 @@ def handle (j : Json) : List (String × Json) :=
   -- a callback that panics with a value that says nothing: still an error, but not the tree's
   let opq := jstr j "panic" = "int" || jstr j "panic" = "struct"
   let fix (x : String) : String := if opq then x.replace s!"error:tree:injected-fault-{failAt}" "error:internal" else x
+  -- `nospec`: an expression that is no path (what the run of the machine has to end in is what the machine model says)
+  if jbool j "nospec" then [("m", fix m), ("s", fix m), ("dc", Json.bool false)] else
   [("m", fix m), ("s", fix s), ("dc", Json.bool (dupKeys p || multiIn t p))]
 
 end YV.Drv.C02
